@@ -20,6 +20,7 @@ var c03Pkgs = []string{"io/fasta", "io/phylip", "io/nexus", "io/clustal", "io/st
 
 func runC03(c *Ctx) {
 	L := c.L
+	c.checkParserConfig("parser-config")
 	L.Rule("lexer-eof", "in the end-of-input steady state (ReadRune returns an error) the lexer's Scan() returns the package's EOF token")
 	L.Rule("eof-loop", "a loop that consumes input is left within k <= 5 iterations after the input is exhausted: abstract iteration k of the loop body (header values = what iteration k-1 carried over its executable back edges, unknown for k = 1) has no executable back edge")
 	L.Rule("bounded-loop", "a loop that does not consume input is a range loop or a counter loop with a constant non-zero step and an exit test in its header")
